@@ -34,7 +34,7 @@ def inline_type(sig):
     return sig[0] == () or False
 
 
-def reachable(spec):
+def reachable(spec, declared_roots=True):
     """-> {kind: set(indices)} for kinds func, table, memory, global, type, element, data (index spaces incl. imports)"""
     imp = {'func': [], 'table': [], 'memory': [], 'global': []}
     for i in spec.imports:
@@ -56,7 +56,8 @@ def reachable(spec):
             push('data', k)
     for k, e in enumerate(spec.elements):
         if e['mode'] == 'declared':
-            push('element', k)
+            if declared_roots:          # walrus roots declared segments conservatively; they have no run-time effect
+                push('element', k)
         elif e['mode'] == 'active':
             t = 0 if e['table'] is None else conc(e['table'])
             if t < nimp['table']:
